@@ -403,8 +403,18 @@ func (m *Model) rem(l *MLoc, id string) []string {
 // exists (used only to follow the engine through a known finding).
 func (m *Model) CascadeFrom(loc, id string) []string {
 	l := m.Loc(loc)
+	was := map[string]map[string]bool{}
+	for k, by := range m.unc(l) {
+		was[k] = by
+	}
 	removed := m.cascade(l, id)
 	for _, r := range removed {
+		if by, unc := was[r]; unc {
+			// its content in the engine is unknown (a write to it failed or
+			// was interrupted), so whether the engine's copy names id is too
+			m.markUnc(l, r, by)
+			continue
+		}
 		delete(m.unc(l), r)
 	}
 	return removed
@@ -486,11 +496,31 @@ func (m *Model) RemFact(loc, id string, p Prot) (exists bool, removed []string, 
 	}
 	m.Purge(l)
 	_, exists = l.Items[id]
+	faulted := m.unc(l)[id]["+fault"]
 	removed = m.rem(l, id)
 	for _, r := range removed {
+		if m.unc(l)[r]["+fault"] {
+			// a removal does not settle an id left unknown by a failed or
+			// interrupted operation (the engine may find nothing in memory
+			// and leave storage as it is); only a successful add does
+			continue
+		}
 		delete(m.unc(l), r)
 	}
-	delete(m.unc(l), id)
+	if !faulted {
+		delete(m.unc(l), id)
+	}
+	// An item whose content is unknown (a write to it failed or was
+	// interrupted) may name the removed ids in deleteWith; if it does it went
+	// too, and so did whatever names it.  Everything that (transitively)
+	// depends on such an item becomes a don't-care.
+	for u, by := range m.unc(l) {
+		if by["+fault"] {
+			for d := range m.Dependents(l, u) {
+				m.markUnc(l, d, map[string]bool{"+fault": true})
+			}
+		}
+	}
 	return exists, removed, nil
 }
 
@@ -863,9 +893,13 @@ func (m *Model) RemRaw(loc, id string) {
 	l := m.Loc(loc)
 	m.Purge(l)
 	for _, r := range m.rem(l, id) {
-		delete(m.unc(l), r)
+		if !m.unc(l)[r]["+fault"] {
+			delete(m.unc(l), r)
+		}
 	}
-	delete(m.unc(l), id)
+	if !m.unc(l)[id]["+fault"] {
+		delete(m.unc(l), id)
+	}
 }
 
 // ---- query evaluation (C03) ---------------------------------------------------
